@@ -87,6 +87,32 @@ func decodeReply(proto string, op wire.Op, buf []byte, closed bool) Obs {
 		if len(rest) > 0 && err == nil {
 			o.Incomplete = true
 		}
+		decodeTextFrames(&o, op, frames)
+	} else {
+		frames, rest, err := wire.ParseBinary(buf)
+		if err != nil {
+			o.Garbage = err.Error()
+			o.Discipline = append(o.Discipline, "frame: "+err.Error())
+		}
+		if len(rest) > 0 && err == nil {
+			o.Incomplete = true
+		}
+		decodeBinFrames(&o, op, frames)
+	}
+	finishObs(&o, closed)
+	return o
+}
+
+func finishObs(o *Obs, closed bool) {
+	if closed && (o.Status == "" || o.Status == "none") {
+		o.Status = "closed"
+	}
+	sort.SliceStable(o.Values, func(i, j int) bool { return o.Values[i].Idx < o.Values[j].Idx })
+	sort.Ints(o.Misses)
+}
+
+func decodeTextFrames(o *Obs, op wire.Op, frames []wire.TextFrame) {
+	{
 		switch op.Kind {
 		case "get":
 			for _, f := range frames {
@@ -131,15 +157,11 @@ func decodeReply(proto string, op wire.Op, buf []byte, closed bool) Obs {
 				o.Discipline = append(o.Discipline, fmt.Sprintf("%d reply elements for one %s", len(frames), op.Kind))
 			}
 		}
-	} else {
-		frames, rest, err := wire.ParseBinary(buf)
-		if err != nil {
-			o.Garbage = err.Error()
-			o.Discipline = append(o.Discipline, "frame: "+err.Error())
-		}
-		if len(rest) > 0 && err == nil {
-			o.Incomplete = true
-		}
+	}
+}
+
+func decodeBinFrames(o *Obs, op wire.Op, frames []wire.BinFrame) {
+	{
 		switch op.Kind {
 		case "get":
 			n := len(op.Keys)
@@ -227,12 +249,6 @@ func decodeReply(proto string, op wire.Op, buf []byte, closed bool) Obs {
 			}
 		}
 	}
-	if closed && (o.Status == "" || o.Status == "none") {
-		o.Status = "closed"
-	}
-	sort.SliceStable(o.Values, func(i, j int) bool { return o.Values[i].Idx < o.Values[j].Idx })
-	sort.Ints(o.Misses)
-	return o
 }
 
 // Expect is what the reference map says a command must produce.
